@@ -7,7 +7,7 @@ package main
 //     fall-back routes; stops with parents) - EVERY combination of rotations at EVERY library
 //     `range` over a map (the runtime's random start is a choice point) must give a dump
 //     identical, order included, to the parse with all starts at 0.
-// (2) histories: one shared options / extension object, an alphabet of 8 feeds (two with
+// (2) histories: one shared options / extension object, an alphabet of 9 feeds (two with
 //     elevator alerts sharing groups, two NYCT trip feeds, a mixed one, an empty one), EVERY
 //     sequence of <= 3 calls (thorough <= 4) for every bundled configuration (caller's options
 //     with nil Extension, 4 nycttrips, 24 nyctalerts): the last call's result must equal the
@@ -47,6 +47,25 @@ func c06StaticFeed(c *Ctx) *feedModel {
 	n := baseCounts
 	n.calendars, n.calendarDates, n.shapes, n.trips, n.stops, n.stopTimes = 2, 3, 3, 3, 4, 6
 	m := genStaticFeedN(c, false, n, nil, nil)
+	// service ids that are equal as numbers and differ as text ("7", "07", "+7"): a numeric comparison ties
+	ren := map[string]string{}
+	for i, t := range []string{"calendar.txt", "calendar_dates.txt"} {
+		tt := m.t(t)
+		for r := range tt.Rows {
+			id, _ := tt.get(r, "service_id")
+			if _, ok := ren[id]; !ok {
+				ren[id] = []string{"7", "07", "+7", "007", "7.0"}[(len(ren)+i*0)%5]
+			}
+		}
+	}
+	for _, t := range []string{"calendar.txt", "calendar_dates.txt", "trips.txt"} {
+		tt := m.t(t)
+		for r := range tt.Rows {
+			if id, _ := tt.get(r, "service_id"); ren[id] != "" {
+				tt.set(r, "service_id", ren[id])
+			}
+		}
+	}
 	// three children of the same station
 	st := m.t("stops.txt")
 	p, _ := st.get(0, "stop_id")
@@ -457,10 +476,18 @@ func c06FeedsWith(startDate, idSuffix string) [][]byte {
 			// well-formed ids of the other feeds
 			nyctTU("o5", "063000_M.S20R", "M", true, "M11N"), nyctTU("o6", "070000_J..N20R-2", "J", false, "M12N"), more()[0], more()[1], more()[2]),
 		sink(),
+		func() []byte {
+			e := c17MercuryEntity(nil, mercurySpec{prio1: 29, prio2: -2, prefix: 0, hasExt: true})
+			ma := proto.GetExtension(e.Alert, gtfsrt.E_MercuryAlert).(*gtfsrt.MercuryAlert)
+			ma.CreatedAt = u64p(*ma.CreatedAt + 86400)
+			ma.DisplayBeforeActive = u64p(300)
+			ma.HumanReadableActivePeriod = &gtfsrt.TranslatedString{Translation: []*gtfsrt.TranslatedString_Translation{{Text: sp("Every Tuesday")}}}
+			return mk(e, plainAlertEntity("plain-2"))
+		}(),
 	}
 }
 
-var c06FeedNames = []string{"empty", "elevators-1", "elevators-2", "nyct-trips-1", "nyct-trips-2", "mixed", "nyct-oddities", "kitchen-sink"}
+var c06FeedNames = []string{"empty", "elevators-1", "elevators-2", "nyct-trips-1", "nyct-trips-2", "mixed", "nyct-oddities", "kitchen-sink", "mixed-alert-again-with-other-metadata"}
 
 type rtConfig struct {
 	name   string
@@ -738,7 +765,7 @@ func init() {
 	register(&Check{
 		ID:    "C06",
 		Level: "model_checking",
-		Rule: "(1) every combination of iteration starts at every library map range (choice points owned through the runtime overlay) for a static archive with 3 services/3 shapes/3 trips/3 sibling stops and a realtime message with 3 id-bearing vehicles, 3 trips and an alert with 3 fall-back routes; (2) all call sequences of <= 3 (thorough <= 5) over 8 feeds on ONE shared options/extension object - whose Timezone field the caller may reassign between calls, and whose earlier results the caller may overwrite in place (every value reachable through pointers and slices) - for each of 30 configurations (nil Extension, explicit no-op, 4 nycttrips with and without Timezone, 24 nyctalerts), and all sequences of <= 3 static parses over 3 archives x inherit option; (3) relation (bytes, configuration) -> dump over every parse of the run, across worker processes; (4) all histories of <= 3 (thorough 4) calls over {static archive in New_York / Kolkata / an unknown zone, realtime feed under New_York / UTC / London / two fixed zones both named EST} each executed in its own pristine process and compared call by call with single-call pristine processes; " +
+		Rule: "(1) every combination of iteration starts at every library map range (choice points owned through the runtime overlay) for a static archive with 3 services/3 shapes/3 trips/3 sibling stops and a realtime message with 3 id-bearing vehicles, 3 trips and an alert with 3 fall-back routes; (2) all call sequences of <= 3 (thorough <= 5) over 9 feeds on ONE shared options/extension object - whose Timezone field the caller may reassign between calls, and whose earlier results the caller may overwrite in place (every value reachable through pointers and slices) - for each of 30 configurations (nil Extension, explicit no-op, 4 nycttrips with and without Timezone, 24 nyctalerts), and all sequences of <= 3 static parses over 3 archives x inherit option; (3) relation (bytes, configuration) -> dump over every parse of the run, across worker processes; (4) all histories of <= 3 (thorough 4) calls over {static archive in New_York / Kolkata / an unknown zone, realtime feed under New_York / UTC / London / two fixed zones both named EST} each executed in its own pristine process and compared call by call with single-call pristine processes; " +
 			"(5) the same archive / message x 30 configurations parsed under 6 wall clocks (real, 1970, around the first stop time of unassigned NYCT trips, 2100; headers with / without / zero timestamp): identical dumps; the map-order archive also with a 3-cycle, a 2-cycle and a self-parent among its stops; (6) rejected inputs (truncated, HTML, plain text, JSON, base64, missing required field, stray bytes) with 0 / 1 / 64 bytes of spare capacity: buffer unchanged up to its capacity; " +
 			"non-trivial = distinct histories of >= 2 calls or inputs with a >= 3-entry library map; oracle = differential (rotated vs. fixed order, reused vs. fresh object) with content and order compared",
 		Assumptions: []string{"library maps are single-bucket (<= 8 entries) in these inputs, so rotations are all achievable orders; uncontrolled_maps counts any exception", "process-level state (package variables) is exercised by running histories in 16 separate worker processes that must all agree"},
